@@ -78,3 +78,14 @@ claim('C15', 'writer/reader sibling cross-check (ordered field, version, encodin
       'no lossy width in the writers, and lists every panicking operation of the reader on input-derived data (12 known findings: the reader is not total).',
       'Value equality after marshal.loads of strings/tuples is not decided. The marshal code table is frozen and cross-checked against marshal.dumps in the thorough tier.',
       'DESIGN.md §3 C15')
+
+claim('C13', 'per-version specialisation of the code generator (abstract interpretation over typed HIR) against dis.opmap; jump-unit rules; argument-flow rule for --py-command',
+      'Decides: (R1) every opcode that can reach write_instr in code reachable under target 3.v is an opcode of CPython 3.v (v = 7..11, 500+ site x version obligations); '
+      '(R3) jump operands are converted to the unit of the target (bytes <= 3.9, instructions >= 3.10); (R2) the interpreter chosen by --py-command reaches the spawn.',
+      'That the emitted sequence computes the same result on every version is a run-time fact and is not decided. Three same-number aliases are frozen with reasons in sa/props/c13.py.',
+      'DESIGN.md §3 C13')
+claim('C14', 'abstract interpretation of the code generator per target version over (code-length parity, bytes since last opcode) with summaries; who-may-write rule',
+      'Decides instruction alignment of everything the generator emits (so that every recorded lasti / patched jump target is an instruction boundary), the 3.11 inline-cache '
+      'sizes against CPython\'s _inline_cache_entries, and single ownership of the code array and of the stack accounting fields.',
+      'Does not decide that stacksize bounds the real operand depth, that constant/name/local indices are in range, jump target values, or the line table.',
+      'DESIGN.md §3 C14')
